@@ -30,6 +30,8 @@ Inductive ccase :=
 | CBat (min_size max_size slack : Z) (evs : list tbev)
        (batches : list (list Z))                             (* exported batches in start order: ids *)
        (fired : list (Z * Z))                                (* OnDone calls: (request index, error? 1/0) in order *)
+| CE2E (signal sz min_size max_size : Z) (reqs : list treq)    (* real requests through the real exporter, one consumer: *)
+       (batches : list (list Z))                             (* ids of every exported payload, compared as a set     *)
 | CBatC (min_size max_size slack workers : Z) (evs : list tbev)  (* worker contention: export results name the batch *)
         (batches : list (list Z))                            (* by its FIRST ID; batches are compared as a set     *)
         (fired : list (Z * Z)).
@@ -161,6 +163,15 @@ Definition spec_err (slack min max : Z) (evs : list tbev) (i : Z) : Z :=
 
 Definition pz_eqb (a b : Z * Z) : bool := Z.eqb (fst a) (fst b) && Z.eqb (snd a) (snd b).
 
+(* ---- the batcher over payload requests (the composition proved about in Proofs8: merge_split inside Consume, the
+   queue's sizer = the true size) ---- *)
+Definition model_e2e (signal sz mn mx : Z) (reqs : list treq) : list (list Z) :=
+  let w := weight_of signal in
+  let s := sizer_of sz in
+  let evs := map (fun t => EConsume (req_of t)) reqs ++ [EShutdown] in
+  let st := fst (brun (fun a b => merge_split w s mx a b) (fun r => payload_size w s (rp r)) mn evs) in
+  map (fun f => map iid (items_of (rp (snd (fst f))))) (b_flying st).
+
 (* ---- check_case -------------------------------------------------------------------------------- *)
 Definition check_case (c : ccase) : bool :=
   match c with
@@ -173,6 +184,10 @@ Definition check_case (c : ccase) : bool :=
     list_eqb lz_eqb mb bs && list_eqb pz_eqb mf fired &&
     (* every OnDone the IMPLEMENTATION made carries the error the specification demands *)
     forallb (fun p => Z.eqb (snd p) (spec_err sl mn mx evs (fst p))) fired
+  | CE2E sg sz mn mx reqs bs =>
+    let mb := model_e2e sg sz mn mx reqs in
+    forallb (fun b => existsb (lz_eqb b) mb) bs && forallb (fun b => existsb (lz_eqb b) bs) mb &&
+    Nat.eqb (length mb) (length bs)
   | CBatC mn mx sl _ evs bs fired =>
     let evs' := tr_evs sl mn mx evs (b_init, O) in
     let '(mb, mf) := model_bat sl mn mx evs' in
@@ -193,5 +208,6 @@ Definition model_out (c : ccase) : cout :=
   | CSov l => OSov (map (fun p => (fst p, delta Bytes (fst p))) l)
   | CCfg ft mn mx _ => OCfg (batch_cfg_valid ft mn mx)
   | CBat mn mx sl evs _ _ => OBat (model_bat sl mn mx evs)
+  | CE2E sg sz mn mx reqs _ => OBat (model_e2e sg sz mn mx reqs, [])
   | CBatC mn mx sl _ evs _ _ => OBat (model_bat sl mn mx (tr_evs sl mn mx evs (b_init, O)))
   end.
